@@ -43,7 +43,7 @@ func (e *Engine) verifyLemma(prop string, l *Lemma) (obls []*Obligation, errs st
 		}
 	}
 	fi := &FuncInfo{Pkg: pkg, Key: "lemma." + l.Name}
-	fc := &FCtx{E: e, U: NewUniverse(), FI: fi, C: &FuncContract{Loops: map[int]*LoopSpec{}, Flags: map[string]string{}}, Prop: prop, counters: map[string]int{}, assumed: map[string]bool{}, inlined: map[string]bool{}, specDecl: map[string]bool{}, ctxSuffixOf: map[string]string{}}
+	fc := &FCtx{E: e, U: NewUniverse(), FI: fi, C: &FuncContract{Loops: map[int]*LoopSpec{}, Flags: map[string]string{}}, Prop: prop, counters: map[string]int{}, assumed: map[string]bool{}, inlined: map[string]bool{}, specDecl: map[string]bool{}, ctxSuffixOf: map[string]string{}, cacheParent: map[string]string{}}
 	fc.frames = []*frame{{fi: fi}}
 	defer func() {
 		if r := recover(); r != nil {
